@@ -18,7 +18,7 @@ pub fn def() -> CheckDef {
         info: CheckInfo {
             id: "C17",
             level: "exploration",
-            rule: "one seeded run = one history (as C02: edits, backups with any options, backups killed before operation k, deletes, gc) executed three times into fresh simulated stores: flavour A sorted storage listings and no delays; flavour B shuffled listings plus seeded delays that reorder the completion of sibling tasks; flavour C reversed listings and another delay seed. Oracle: the three stores have the same path set and byte-identical files (BANDHEAD/BANDTAIL compared as JSON without start_time/end_time) and the three operation logs have the same sequence of mutating operations (verb, path, content hash). Non-trivial: the history made at least two archive-changing steps; distinct = distinct final store hash.",
+            rule: "one seeded run = one history (as C02: edits, backups with any options, backups killed before operation k, deletes, gc) executed three times into fresh simulated stores: flavour A sorted storage listings and no delays; flavour B shuffled listings plus seeded delays that reorder the completion of sibling tasks; flavour C reversed listings and another delay seed; flavour D sorted, no delays, but every simulated process exits the moment its call returns, so tasks it detached (the GC-lock cleanup spawned from Drop) never run. Oracle: the three stores have the same path set and byte-identical files (BANDHEAD/BANDTAIL compared as JSON without start_time/end_time) and the three operation logs have the same sequence of mutating operations (verb, path, content hash); for flavour D the first step at which lock presence or outcome diverges from flavour A is reported. Non-trivial: the history made at least two archive-changing steps; distinct = distinct final store hash.",
             assumptions: &[
                 "OS-level races inside tokio's multi-thread scheduler are not controlled by this simulator; the write path has no spawned tasks today, and flavour B's delay seam would reorder them if it gained any",
                 "each flavour materialises the same explicit edits in its own scratch directory",
@@ -71,22 +71,34 @@ fn execute(sc: &Scenario, acc: &mut Acc) -> Result<Vec<Violation>, String> {
     acc.runs += 1;
     acc.evaluations += 1;
     *acc.backends.entry("mem".into()).or_default() += 1;
+    // (listing order, delays, let spawned cleanup tasks run before the simulated process exits)
     let flavours = [
-        (ListOrder::Sorted, None),
-        (ListOrder::Shuffled(sc.seed ^ 0xB), Some((sc.seed ^ 0xB1, 300u32))),
-        (ListOrder::Reversed, Some((sc.seed ^ 0xC1, 150u32))),
+        (ListOrder::Sorted, None, true),
+        (ListOrder::Shuffled(sc.seed ^ 0xB), Some((sc.seed ^ 0xB1, 300u32)), true),
+        (ListOrder::Reversed, Some((sc.seed ^ 0xC1, 150u32)), true),
+        // the process exits as soon as the call returns: detached tasks never get to run
+        (ListOrder::Sorted, None, false),
     ];
     let mut results: Vec<Flavoured> = Vec::new();
+    let mut trails: Vec<Vec<(bool, String)>> = Vec::new();
     let mut changing_steps = 0;
-    for (order, delay) in flavours.iter() {
+    for (order, delay, drain) in flavours.iter() {
         let mut env = sc.env.clone();
         env.list_order = *order;
         env.delay = *delay;
+        env.drain = *drain;
+        let mut trail: Vec<(bool, String)> = Vec::new();
         let mut w = World::new(env, sc.root_meta);
         let mut a2 = Acc::default();
         changing_steps = 0;
         for step in &sc.steps {
-            exec_step(&mut w, step, &mut a2, false)?;
+            let res = exec_step(&mut w, step, &mut a2, false)?;
+            let outcome = match &res {
+                crate::scenario::StepResult::Delete(d) => format!("delete:{}", crate::scenario::outcome_disc(&d.outcome)),
+                crate::scenario::StepResult::Backup(b) => format!("backup:{}", crate::scenario::outcome_disc(&b.outcome)),
+                _ => "other".to_string(),
+            };
+            trail.push((w.gc_lock_present(), outcome));
             match step {
                 Step::Backup { plan, .. } => {
                     changing_steps += 1;
@@ -123,6 +135,31 @@ fn execute(sc: &Scenario, acc: &mut Acc) -> Result<Vec<Violation>, String> {
         let dirs: Vec<String> = st.nodes.iter().filter(|(_, n)| matches!(n, Node::Dir)).map(|(k, _)| k.clone()).collect();
         acc.states.insert(st.state_hash());
         results.push((masked(&st), muts, dirs));
+        trails.push(trail);
+    }
+    // flavour D (exit before detached cleanup): only the FIRST divergence is meaningful, later
+    // steps legitimately differ once a lock was left behind
+    if let Some(i) = (0..trails[0].len()).find(|i| trails[0][*i] != trails[3][*i]) {
+        let (lock_a, out_a) = &trails[0][i];
+        let (lock_d, out_d) = &trails[3][i];
+        acc.hit("exit_before_cleanup_diverged");
+        let disc = if *lock_d && !*lock_a {
+            if out_d.starts_with("delete:ok") {
+                "gc_lock_left_after_successful_delete".to_string()
+            } else if out_d.starts_with("delete:") {
+                "gc_lock_left_after_failed_delete".to_string()
+            } else {
+                format!("gc_lock_left_after_{}", out_d.split(':').next().unwrap_or("step"))
+            }
+        } else {
+            format!("outcome_differs:{}", out_d.split(':').next().unwrap_or("step"))
+        };
+        out.push(Violation::new(
+            prop,
+            "stores_identical_across_flavours",
+            format!("exit_before_cleanup:{disc}"),
+            format!("step {i}: with detached cleanup allowed to run: lock_present={lock_a} {out_a}; when the process exits first: lock_present={lock_d} {out_d}"),
+        ));
     }
     if changing_steps >= 2 {
         acc.nontrivial.insert(rng::mix(&results[0].0.iter().map(|(p, b)| rng::mix(&[rng::hash_str(p), rng::hash_bytes(b)])).collect::<Vec<_>>()));
